@@ -178,7 +178,7 @@ def compute_dynamics(
     if record_all:
         times = start_time + np.arange(len(states))*dt
     else:
-        times = [start_time + len(states)*dt]
+        times = [start_time + num_steps*dt]
 
     return Dynamics(times=list(times),states=states)
 
@@ -476,7 +476,7 @@ def compute_dynamics_with_field(
     if record_all:
         times = start_time + np.arange(len(system_states_list))*dt
     else:
-        times = [start_time + len(system_states_list)*dt]
+        times = [start_time + num_steps*dt]
 
     return MeanFieldDynamics(
                 times=list(times), system_states_list=system_states_list,
